@@ -28,10 +28,10 @@ theorem hammingWt_vxor_le : ∀ a b : Vec, hammingWt (vxor a b) ≤ hammingWt a 
     have ih := hammingWt_vxor_le as bs
     (repeat' split) <;> omega
 
-theorem vxor_length (a b : Vec) (h : a.length = b.length) : (vxor a b).length = a.length := by
+theorem vxor_length_dec (a b : Vec) (h : a.length = b.length) : (vxor a b).length = a.length := by
   unfold vxor; simp [vadd_length a b h]
 
-theorem vxor_binary (a b : Vec) : ∀ x ∈ vxor a b, x < 2 := by
+theorem vxor_binary_dec (a b : Vec) : ∀ x ∈ vxor a b, x < 2 := by
   unfold vxor
   intro x hx
   obtain ⟨y, _, rfl⟩ := List.mem_map.mp hx
@@ -87,7 +87,7 @@ theorem corrects_up_to_t_sector (M : Mat) (n t : Nat) (IsStab : Vec → Prop)
   refine ⟨hsyn, hw, ?_⟩
   apply Classical.byContradiction
   intro hns
-  have := hdist (vxor e c) (by rw [vxor_length e c hlen]; exact he) (vxor_binary e c) hsyn hns
+  have := hdist (vxor e c) (by rw [vxor_length_dec e c hlen]; exact he) (vxor_binary_dec e c) hsyn hns
   omega
 
 /-- sector weights are bounded by the Pauli weight `bsf_wt` -/
@@ -120,11 +120,11 @@ theorem sector_weights_le_pauli_weight (e : Vec) (n : Nat) (he : e.length = 2 * 
   rw [bsfWt_eq]
   exact ⟨hammingWt_le_zipWith_add _ _ (by omega), hammingWt_le_zipWith_add' _ _ (by omega)⟩
 
-theorem xPart_vxor (a b : Vec) (h : a.length = b.length) :
+theorem xPart_vxor_dec (a b : Vec) (h : a.length = b.length) :
     xPart (vxor a b) = vxor (xPart a) (xPart b) := by
   unfold vxor; rw [xPart_map, xPart_vadd a b h]
 
-theorem zPart_vxor (a b : Vec) (h : a.length = b.length) :
+theorem zPart_vxor_dec (a b : Vec) (h : a.length = b.length) :
     zPart (vxor a b) = vxor (zPart a) (zPart b) := by
   unfold vxor; rw [zPart_map, zPart_vadd a b h]
 
@@ -145,7 +145,7 @@ theorem symp_zeros (r : Vec) (k : Nat) : symp r (List.replicate k 0) = 0 := by
 
 theorem measureSyndrome_zeros (H : Mat) (k : Nat) :
     measureSyndrome H (List.replicate k 0) = List.replicate H.length 0 := by
-  rw [measureSyndrome_eq]
+  rw [measureSyndrome_eq_dec]
   simp only [symp_zeros]
   induction H with
   | nil => rfl
@@ -165,14 +165,14 @@ theorem xPart_zeros (n : Nat) : xPart (List.replicate (2 * n) 0) = List.replicat
 theorem zPart_zeros (n : Nat) : zPart (List.replicate (2 * n) 0) = List.replicate n 0 := by
   unfold zPart; simp; omega
 
-theorem vxor_append : ∀ (a b a' b' : Vec), a.length = b.length →
+theorem vxor_append_dec : ∀ (a b a' b' : Vec), a.length = b.length →
     vxor (a ++ a') (b ++ b') = vxor a b ++ vxor a' b'
   | [], [], _, _, _ => by simp [vxor_nil_left]
   | [], _ :: _, _, _, h => by simp at h
   | _ :: _, [], _, _, h => by simp at h
   | x :: a, y :: b, a', b', h => by
     simp at h
-    simp [vxor_cons, vxor_append a b a' b' h]
+    simp [vxor_cons, vxor_append_dec a b a' b' h]
 
 theorem vxor_zeros_right : ∀ (a : Vec), (∀ x ∈ a, x < 2) → vxor a (List.replicate a.length 0) = a
   | [], _ => by simp [vxor_nil_left]
@@ -194,7 +194,7 @@ theorem vxor_zeros_left : ∀ (a : Vec), (∀ x ∈ a, x < 2) → vxor (List.rep
 theorem sweepmatch_assemble (n : Nat) (cx zz : Vec) (hcx : cx.length = n) (hzz : zz.length = n)
     (hbx : ∀ x ∈ cx, x < 2) (hbz : ∀ x ∈ zz, x < 2) :
     vxor (cx ++ List.replicate n 0) (List.replicate n 0 ++ zz) = cx ++ zz := by
-  rw [vxor_append cx (List.replicate n 0) _ _ (by simp [hcx])]
+  rw [vxor_append_dec cx (List.replicate n 0) _ _ (by simp [hcx])]
   have h1 := vxor_zeros_right cx hbx
   have h2 := vxor_zeros_left zz hbz
   rw [hcx] at h1
@@ -229,7 +229,7 @@ theorem sweepmatch_valid {W R : Type} (sweep : R → Vec → R × Vec) (solve : 
   simp only [hlen, ne_eq, not_true_eq_false, if_false]
   rw [sweepmatch_assemble n _ zz hcl hzl hcb hzb]
   refine ⟨_, _, rfl, by simp [hcl, hzl]; omega, binary_append hcb hzb, ?_, ?_⟩
-  · exact xPart_append _ _ (by omega)
-  · rw [css_zrow_block H hcss, xPart_append _ _ (by omega), hcs]
+  · exact xPart_append_dec _ _ (by omega)
+  · rw [css_zrow_block H hcss, xPart_append_dec _ _ (by omega), hcs]
 
 end Panqec
